@@ -239,6 +239,7 @@ class Generator:
         self.meta = {'unit': None, 'modes': ['S'], 'props': [], 'tier': 'quick'}
         self.rule_counts = {}
         self.clauses = 0
+        self.defines = set()
 
     # ---- helpers
     def file(self, rel):
@@ -297,6 +298,8 @@ class Generator:
                 if cmd in ('fn', 'macrofn'):
                     while i < len(lines) and lines[i].strip() != '//@ end':
                         i += 1
+            elif cmd == 'define':
+                self.defines.add(tok[1])
             elif cmd == 'unit':
                 self.meta['unit'] = tok[1]
             elif cmd == 'modes':
@@ -334,6 +337,10 @@ class Generator:
         t = toks[0]
         if t in ('S', 'P'):
             return self.mode == t
+        if t == 'def':
+            return toks[1] in self.defines
+        if t == 'ndef':
+            return toks[1] not in self.defines
         raise Inconclusive('unknown condition %s' % t)
 
     @staticmethod
@@ -379,7 +386,11 @@ class Generator:
                 elif c == 'ret':
                     e.ret = tok[1]
                 elif c == 'external':
-                    e.external = True
+                    kvx = self._kv(tok[1:])
+                    if 'ifdef' in kvx:
+                        e.external = kvx['ifdef'] in self.defines
+                    else:
+                        e.external = True
                 elif c == 'sub':
                     rg, rp = d[3:].split('=>', 1)
                     e.subs.append((rg.strip(), rp.strip()))
